@@ -190,3 +190,61 @@ Proof. reflexivity. Qed.
 Lemma gen_marshal_extensions_is_model idx :
   gen_marshal_extensions (b_add (be 5 (Z.to_N idx))) idx = marshal_extensions idx.
 Proof. reflexivity. Qed.
+
+(* ---- ParseExtensions as generated from extensions.go: the loop over extensions, the first
+        leaf_index extension decides ---- *)
+From SL Require Import Base.BytesProofs.
+
+Definition pext_result (o : outcome gen_pext_st) : option Z :=
+  match o with
+  | Done r st => if String.eqb r "e, nil" then Some (Z.of_N (gen_pext_e_leafindex st)) else None
+  | _ => None
+  end.
+
+Ltac pext_step :=
+  cbn [gen_pext_zero gen_pext_set_b gen_pext_set_e_leafindex gen_pext_set_extension gen_pext_set_extensiontype
+       gen_pext_b gen_pext_e_leafindex gen_pext_extension gen_pext_extensiontype].
+
+Lemma rd_u_shorter k s v r : rd_u k s = Some (v, r) -> (length r <= length s)%nat.
+Proof. intro H. apply rd_u_inv in H. destruct H as [-> _]. rewrite app_length. lia. Qed.
+
+Lemma rd_u1_shorter s v r : rd_u 1 s = Some (v, r) -> (length r < length s)%nat.
+Proof.
+  intro H. apply rd_u_inv in H. destruct H as [-> _]. rewrite app_length, length_be. lia.
+Qed.
+
+Lemma rd_lp_shorter k s c r : rd_lp k s = Some (c, r) -> (length r <= length s)%nat.
+Proof. intro H. apply rd_lp_inv in H. destruct H as [-> _]. rewrite !app_length. lia. Qed.
+
+Lemma gen_pext_loop_spec : forall fuel st rfuel k,
+  (length (gen_pext_b st) < fuel)%nat -> (length (gen_pext_b st) < rfuel)%nat ->
+  (forall st', pext_result (k st') = None) ->
+  pext_result (obind (gen_pext_loop1 (rd_u 5) fuel st) k) = parse_extensions_fuel rfuel (gen_pext_b st).
+Proof.
+  induction fuel as [|fuel IH]; intros st rfuel k Hf Hr Hk; [lia|].
+  destruct rfuel as [|rfuel]; [lia|].
+  cbn [gen_pext_loop1 parse_extensions_fuel].
+  destruct (gen_pext_b st) as [|b0 s] eqn:Eb.
+  - cbn [is_nil negb obind]. apply Hk.
+  - cbn [is_nil negb]. pext_step. rewrite Eb.
+    destruct (rd_u 1 (b0 :: s)) as [[ty s1]|] eqn:E1; [|reflexivity]. pext_step.
+    destruct (rd_lp 2 s1) as [[ext s2]|] eqn:E2; [|reflexivity]. pext_step.
+    destruct (ty =? 0).
+    + destruct (rd_u 5 ext) as [[v r]|]; [|reflexivity]. pext_step.
+      destruct r; cbn [is_nil negb obind pext_result]; [|reflexivity].
+      change (String.eqb "e, nil" "e, nil") with true. cbv iota. pext_step. reflexivity.
+    + apply rd_u1_shorter in E1. apply rd_lp_shorter in E2. cbn [length] in *.
+      match goal with |- context [gen_pext_loop1 _ fuel ?S] => set (st2 := S) end.
+      assert (Eb2 : gen_pext_b st2 = s2) by reflexivity.
+      rewrite <- Eb2. apply IH; [rewrite Eb2; lia|rewrite Eb2; lia|exact Hk].
+Qed.
+
+Theorem gen_pext_is_model s : pext_result (gen_pext (rd_u 5) s) = parse_extensions s.
+Proof.
+  unfold gen_pext, parse_extensions. pext_step.
+  pose proof (gen_pext_loop_spec (S (length s)) (gen_pext_set_b s gen_pext_zero) (S (length s))) as H.
+  pext_step. cbn [gen_pext_b gen_pext_set_b] in H. apply H; [lia|lia|reflexivity].
+Qed.
+
+Lemma gen_pext_whole_function : gen_pext_continues = ""%string.
+Proof. reflexivity. Qed.
